@@ -1,4 +1,4 @@
----- MODULE MC_Pipeline_TTrace_1790432274 ----
+---- MODULE MC_Pipeline_TTrace_1790435422 ----
 EXTENDS Sequences, TLCExt, Toolbox, Naturals, TLC, MC_Pipeline
 
 _expression ==
@@ -17,15 +17,15 @@ _inv ==
         /\
         over = (FALSE)
         /\
-        cur = ((0 :> 0))
+        cur = ((0 :> 0 @@ 1 :> 0))
         /\
-        st = ((0 :> "EMPTY"))
+        st = ((0 :> "EMPTY" @@ 1 :> "EMPTY"))
         /\
-        cvU = ((0 :> {}))
+        cvU = ((0 :> {} @@ 1 :> {}))
         /\
-        pcw = ((0 :> "ge"))
+        pcw = ((0 :> "ge" @@ 1 :> "st"))
         /\
-        born = (1)
+        born = (2)
         /\
         turn = (0)
         /\
@@ -33,13 +33,13 @@ _inv ==
         /\
         out = (<<>>)
         /\
-        mtx = ((0 :> 2))
+        mtx = ((0 :> 3 @@ 1 :> 3))
         /\
-        hist = ((0 :> 0))
+        hist = ((0 :> 0 @@ 1 :> 0))
         /\
-        buf = ((0 :> [total |-> 2, now |-> 0, final |-> TRUE, data |-> <<[k |-> 0, cnt |-> 0, s |-> 99, q |-> 99], [k |-> 1, cnt |-> 0, s |-> 99, q |-> 99]>>]))
+        buf = ((0 :> [total |-> 2, now |-> 0, final |-> FALSE, data |-> <<[k |-> 0, cnt |-> 0, s |-> 99, q |-> 99], [k |-> 1, cnt |-> 0, s |-> 99, q |-> 99]>>] @@ 1 :> [total |-> 0, now |-> 0, final |-> FALSE, data |-> <<>>]))
         /\
-        lstate = ("FINAL")
+        lstate = ("FULL")
         /\
         nload = (2)
         /\
@@ -47,9 +47,9 @@ _inv ==
         /\
         nj = (0)
         /\
-        cvR = ((0 :> {}))
+        cvR = ((0 :> {} @@ 1 :> {}))
         /\
-        live = (1)
+        live = (2)
     )
 ----
 
@@ -120,7 +120,7 @@ _next ==
 \* to `JsonSerialize`. For example, a sub-sequence of _TETrace.
     \* ASSUME
     \*     LET J == INSTANCE Json
-    \*         IN J!JsonSerialize("MC_Pipeline_TTrace_1790432274.json", _TETrace)
+    \*         IN J!JsonSerialize("MC_Pipeline_TTrace_1790435422.json", _TETrace)
 
 =============================================================================
 
@@ -189,7 +189,7 @@ Parsing and semantic processing can take forever if the trace below is long.
 \*---- MODULE MC_Pipeline_TETrace ----
 \*EXTENDS IOUtils, TLC, MC_Pipeline
 \*
-\*trace == IODeserialize("MC_Pipeline_TTrace_1790432274.bin", TRUE)
+\*trace == IODeserialize("MC_Pipeline_TTrace_1790435422.bin", TRUE)
 \*
 \*=============================================================================
 \*
@@ -199,24 +199,25 @@ EXTENDS TLC, MC_Pipeline
 
 trace == 
     <<
-    ([over |-> FALSE,cur |-> (0 :> 0),st |-> (0 :> "EMPTY"),cvU |-> (0 :> {}),pcw |-> (0 :> "st"),born |-> 0,turn |-> 0,pcio |-> "sp",out |-> <<>>,mtx |-> (0 :> 2),hist |-> (0 :> 0),buf |-> (0 :> [total |-> 0, now |-> 0, final |-> FALSE, data |-> <<>>]),lstate |-> "NODATA",nload |-> 1,outlen |-> 0,nj |-> 0,cvR |-> (0 :> {}),live |-> 1]),
-    ([over |-> FALSE,cur |-> (0 :> 0),st |-> (0 :> "EMPTY"),cvU |-> (0 :> {}),pcw |-> (0 :> "st"),born |-> 1,turn |-> 0,pcio |-> "sp",out |-> <<>>,mtx |-> (0 :> 2),hist |-> (0 :> 0),buf |-> (0 :> [total |-> 0, now |-> 0, final |-> FALSE, data |-> <<>>]),lstate |-> "NODATA",nload |-> 1,outlen |-> 0,nj |-> 0,cvR |-> (0 :> {}),live |-> 1]),
-    ([over |-> FALSE,cur |-> (0 :> 0),st |-> (0 :> "EMPTY"),cvU |-> (0 :> {}),pcw |-> (0 :> "st"),born |-> 1,turn |-> 0,pcio |-> "wu0",out |-> <<>>,mtx |-> (0 :> 2),hist |-> (0 :> 0),buf |-> (0 :> [total |-> 0, now |-> 0, final |-> FALSE, data |-> <<>>]),lstate |-> "NODATA",nload |-> 1,outlen |-> 0,nj |-> 0,cvR |-> (0 :> {}),live |-> 1]),
-    ([over |-> FALSE,cur |-> (0 :> 0),st |-> (0 :> "EMPTY"),cvU |-> (0 :> {}),pcw |-> (0 :> "st"),born |-> 1,turn |-> 0,pcio |-> "wu1",out |-> <<>>,mtx |-> (0 :> 1),hist |-> (0 :> 0),buf |-> (0 :> [total |-> 0, now |-> 0, final |-> FALSE, data |-> <<>>]),lstate |-> "NODATA",nload |-> 1,outlen |-> 0,nj |-> 0,cvR |-> (0 :> {}),live |-> 1]),
-    ([over |-> FALSE,cur |-> (0 :> 0),st |-> (0 :> "EMPTY"),cvU |-> (0 :> {}),pcw |-> (0 :> "st"),born |-> 1,turn |-> 0,pcio |-> "bu",out |-> <<>>,mtx |-> (0 :> 2),hist |-> (0 :> 0),buf |-> (0 :> [total |-> 0, now |-> 0, final |-> FALSE, data |-> <<>>]),lstate |-> "NODATA",nload |-> 1,outlen |-> 0,nj |-> 0,cvR |-> (0 :> {}),live |-> 1]),
-    ([over |-> FALSE,cur |-> (0 :> 0),st |-> (0 :> "EMPTY"),cvU |-> (0 :> {}),pcw |-> (0 :> "st"),born |-> 1,turn |-> 0,pcio |-> "ld0",out |-> <<>>,mtx |-> (0 :> 2),hist |-> (0 :> 0),buf |-> (0 :> [total |-> 0, now |-> 0, final |-> FALSE, data |-> <<>>]),lstate |-> "NODATA",nload |-> 1,outlen |-> 0,nj |-> 0,cvR |-> (0 :> {}),live |-> 1]),
-    ([over |-> FALSE,cur |-> (0 :> 0),st |-> (0 :> "EMPTY"),cvU |-> (0 :> {}),pcw |-> (0 :> "st"),born |-> 1,turn |-> 0,pcio |-> "ld1",out |-> <<>>,mtx |-> (0 :> 2),hist |-> (0 :> 0),buf |-> (0 :> [total |-> 2, now |-> 0, final |-> TRUE, data |-> <<[k |-> 0, cnt |-> 0, s |-> 99, q |-> 99], [k |-> 1, cnt |-> 0, s |-> 99, q |-> 99]>>]),lstate |-> "FINAL",nload |-> 2,outlen |-> 0,nj |-> 0,cvR |-> (0 :> {}),live |-> 1]),
-    ([over |-> FALSE,cur |-> (0 :> 0),st |-> (0 :> "EMPTY"),cvU |-> (0 :> {}),pcw |-> (0 :> "ge"),born |-> 1,turn |-> 0,pcio |-> "ld1",out |-> <<>>,mtx |-> (0 :> 2),hist |-> (0 :> 0),buf |-> (0 :> [total |-> 2, now |-> 0, final |-> TRUE, data |-> <<[k |-> 0, cnt |-> 0, s |-> 99, q |-> 99], [k |-> 1, cnt |-> 0, s |-> 99, q |-> 99]>>]),lstate |-> "FINAL",nload |-> 2,outlen |-> 0,nj |-> 0,cvR |-> (0 :> {}),live |-> 1])
+    ([over |-> FALSE,cur |-> (0 :> 0 @@ 1 :> 0),st |-> (0 :> "EMPTY" @@ 1 :> "EMPTY"),cvU |-> (0 :> {} @@ 1 :> {}),pcw |-> (0 :> "st" @@ 1 :> "st"),born |-> 0,turn |-> 0,pcio |-> "sp",out |-> <<>>,mtx |-> (0 :> 3 @@ 1 :> 3),hist |-> (0 :> 0 @@ 1 :> 0),buf |-> (0 :> [total |-> 0, now |-> 0, final |-> FALSE, data |-> <<>>] @@ 1 :> [total |-> 0, now |-> 0, final |-> FALSE, data |-> <<>>]),lstate |-> "NODATA",nload |-> 1,outlen |-> 0,nj |-> 0,cvR |-> (0 :> {} @@ 1 :> {}),live |-> 2]),
+    ([over |-> FALSE,cur |-> (0 :> 0 @@ 1 :> 0),st |-> (0 :> "EMPTY" @@ 1 :> "EMPTY"),cvU |-> (0 :> {} @@ 1 :> {}),pcw |-> (0 :> "st" @@ 1 :> "st"),born |-> 1,turn |-> 0,pcio |-> "sp",out |-> <<>>,mtx |-> (0 :> 3 @@ 1 :> 3),hist |-> (0 :> 0 @@ 1 :> 0),buf |-> (0 :> [total |-> 0, now |-> 0, final |-> FALSE, data |-> <<>>] @@ 1 :> [total |-> 0, now |-> 0, final |-> FALSE, data |-> <<>>]),lstate |-> "NODATA",nload |-> 1,outlen |-> 0,nj |-> 0,cvR |-> (0 :> {} @@ 1 :> {}),live |-> 2]),
+    ([over |-> FALSE,cur |-> (0 :> 0 @@ 1 :> 0),st |-> (0 :> "EMPTY" @@ 1 :> "EMPTY"),cvU |-> (0 :> {} @@ 1 :> {}),pcw |-> (0 :> "st" @@ 1 :> "st"),born |-> 2,turn |-> 0,pcio |-> "sp",out |-> <<>>,mtx |-> (0 :> 3 @@ 1 :> 3),hist |-> (0 :> 0 @@ 1 :> 0),buf |-> (0 :> [total |-> 0, now |-> 0, final |-> FALSE, data |-> <<>>] @@ 1 :> [total |-> 0, now |-> 0, final |-> FALSE, data |-> <<>>]),lstate |-> "NODATA",nload |-> 1,outlen |-> 0,nj |-> 0,cvR |-> (0 :> {} @@ 1 :> {}),live |-> 2]),
+    ([over |-> FALSE,cur |-> (0 :> 0 @@ 1 :> 0),st |-> (0 :> "EMPTY" @@ 1 :> "EMPTY"),cvU |-> (0 :> {} @@ 1 :> {}),pcw |-> (0 :> "st" @@ 1 :> "st"),born |-> 2,turn |-> 0,pcio |-> "wu0",out |-> <<>>,mtx |-> (0 :> 3 @@ 1 :> 3),hist |-> (0 :> 0 @@ 1 :> 0),buf |-> (0 :> [total |-> 0, now |-> 0, final |-> FALSE, data |-> <<>>] @@ 1 :> [total |-> 0, now |-> 0, final |-> FALSE, data |-> <<>>]),lstate |-> "NODATA",nload |-> 1,outlen |-> 0,nj |-> 0,cvR |-> (0 :> {} @@ 1 :> {}),live |-> 2]),
+    ([over |-> FALSE,cur |-> (0 :> 0 @@ 1 :> 0),st |-> (0 :> "EMPTY" @@ 1 :> "EMPTY"),cvU |-> (0 :> {} @@ 1 :> {}),pcw |-> (0 :> "st" @@ 1 :> "st"),born |-> 2,turn |-> 0,pcio |-> "wu1",out |-> <<>>,mtx |-> (0 :> 2 @@ 1 :> 3),hist |-> (0 :> 0 @@ 1 :> 0),buf |-> (0 :> [total |-> 0, now |-> 0, final |-> FALSE, data |-> <<>>] @@ 1 :> [total |-> 0, now |-> 0, final |-> FALSE, data |-> <<>>]),lstate |-> "NODATA",nload |-> 1,outlen |-> 0,nj |-> 0,cvR |-> (0 :> {} @@ 1 :> {}),live |-> 2]),
+    ([over |-> FALSE,cur |-> (0 :> 0 @@ 1 :> 0),st |-> (0 :> "EMPTY" @@ 1 :> "EMPTY"),cvU |-> (0 :> {} @@ 1 :> {}),pcw |-> (0 :> "st" @@ 1 :> "st"),born |-> 2,turn |-> 0,pcio |-> "bu",out |-> <<>>,mtx |-> (0 :> 3 @@ 1 :> 3),hist |-> (0 :> 0 @@ 1 :> 0),buf |-> (0 :> [total |-> 0, now |-> 0, final |-> FALSE, data |-> <<>>] @@ 1 :> [total |-> 0, now |-> 0, final |-> FALSE, data |-> <<>>]),lstate |-> "NODATA",nload |-> 1,outlen |-> 0,nj |-> 0,cvR |-> (0 :> {} @@ 1 :> {}),live |-> 2]),
+    ([over |-> FALSE,cur |-> (0 :> 0 @@ 1 :> 0),st |-> (0 :> "EMPTY" @@ 1 :> "EMPTY"),cvU |-> (0 :> {} @@ 1 :> {}),pcw |-> (0 :> "st" @@ 1 :> "st"),born |-> 2,turn |-> 0,pcio |-> "ld0",out |-> <<>>,mtx |-> (0 :> 3 @@ 1 :> 3),hist |-> (0 :> 0 @@ 1 :> 0),buf |-> (0 :> [total |-> 0, now |-> 0, final |-> FALSE, data |-> <<>>] @@ 1 :> [total |-> 0, now |-> 0, final |-> FALSE, data |-> <<>>]),lstate |-> "NODATA",nload |-> 1,outlen |-> 0,nj |-> 0,cvR |-> (0 :> {} @@ 1 :> {}),live |-> 2]),
+    ([over |-> FALSE,cur |-> (0 :> 0 @@ 1 :> 0),st |-> (0 :> "EMPTY" @@ 1 :> "EMPTY"),cvU |-> (0 :> {} @@ 1 :> {}),pcw |-> (0 :> "st" @@ 1 :> "st"),born |-> 2,turn |-> 0,pcio |-> "ld1",out |-> <<>>,mtx |-> (0 :> 3 @@ 1 :> 3),hist |-> (0 :> 0 @@ 1 :> 0),buf |-> (0 :> [total |-> 2, now |-> 0, final |-> FALSE, data |-> <<[k |-> 0, cnt |-> 0, s |-> 99, q |-> 99], [k |-> 1, cnt |-> 0, s |-> 99, q |-> 99]>>] @@ 1 :> [total |-> 0, now |-> 0, final |-> FALSE, data |-> <<>>]),lstate |-> "FULL",nload |-> 2,outlen |-> 0,nj |-> 0,cvR |-> (0 :> {} @@ 1 :> {}),live |-> 2]),
+    ([over |-> FALSE,cur |-> (0 :> 0 @@ 1 :> 0),st |-> (0 :> "EMPTY" @@ 1 :> "EMPTY"),cvU |-> (0 :> {} @@ 1 :> {}),pcw |-> (0 :> "ge" @@ 1 :> "st"),born |-> 2,turn |-> 0,pcio |-> "ld1",out |-> <<>>,mtx |-> (0 :> 3 @@ 1 :> 3),hist |-> (0 :> 0 @@ 1 :> 0),buf |-> (0 :> [total |-> 2, now |-> 0, final |-> FALSE, data |-> <<[k |-> 0, cnt |-> 0, s |-> 99, q |-> 99], [k |-> 1, cnt |-> 0, s |-> 99, q |-> 99]>>] @@ 1 :> [total |-> 0, now |-> 0, final |-> FALSE, data |-> <<>>]),lstate |-> "FULL",nload |-> 2,outlen |-> 0,nj |-> 0,cvR |-> (0 :> {} @@ 1 :> {}),live |-> 2])
     >>
 ----
 
 
 =============================================================================
 
----- CONFIG MC_Pipeline_TTrace_1790432274 ----
+---- CONFIG MC_Pipeline_TTrace_1790435422 ----
 CONSTANTS
-    T = 1
-    N = 20
+    T = 2
+    N = 40
     S = 32
     Dir = "enc"
     EofPeek = TRUE
@@ -249,4 +250,4 @@ CONSTANT
 ALIAS
     _expression
 =============================================================================
-\* Generated on Sat Sep 26 14:18:00 UTC 2026
+\* Generated on Sat Sep 26 15:10:28 UTC 2026
